@@ -142,7 +142,9 @@ def _worker(w, nw, drivers, conn, known=()):
                     st["units"] += 1
                     signal.alarm(UNIT_TIMEOUT_S)
                     try:
+                        upos = -1
                         for case, out in d.execute(unit):
+                            upos += 1
                             i = st["cases"]
                             st["cases"] += 1
                             st["transitions"] += out.n
@@ -165,6 +167,8 @@ def _worker(w, nw, drivers, conn, known=()):
                                 if hit is not None:
                                     st["suppressed"][hit] = st["suppressed"].get(hit, 0) + 1
                                 elif len(st["bad"]) < MAX_KEEP_PER_DRIVER:
+                                    od["unit"] = _jsonable(unit)
+                                    od["unit_pos"] = upos
                                     st["bad"].append((idx, jc, od))
                                 else:
                                     st["overflow"] = st.get("overflow", 0) + 1
@@ -288,6 +292,11 @@ def tree_id():
 def write_replay(prop, driver_id, case, out, tier, seed, subdir="replays"):
     body = dict(property=prop, driver=driver_id, case=case, ref=out["ref"], impl=out["impl"], cls=out["cls"],
                 tags=out["tags"], seed=seed, tier=tier, tree=tree_id())
+    if "unit" in out:
+        # the work unit the case was found in and its position there: lets a replay reproduce state carried
+        # between the cases of one unit (caches on a shared object) when the case alone passes on fresh objects
+        body["unit"] = out["unit"]
+        body["unit_pos"] = out["unit_pos"]
     blob = json.dumps(body, sort_keys=True, indent=1)
     sha = hashlib.sha256(json.dumps([driver_id, case], sort_keys=True).encode()).hexdigest()[:12]
     d = os.path.join(VERIF, subdir)
